@@ -67,3 +67,6 @@ func (f *DefaultFanController) VerifOriginal() (int, int) {
 	return int(f.originalPwmEnabled), f.originalPwmValue
 }
 func VerifTrySetManualPwm(fan fans.Fan) error { return trySetManualPwm(fan) }
+
+// VerifControlLoop exposes the control loop a controller was wired with (C04: which algorithm a configuration selects)
+func (f *DefaultFanController) VerifControlLoop() control_loop.ControlLoop { return f.controlLoop }
